@@ -610,3 +610,51 @@ func vsS11() {
 	e.vFinish("S11", b)
 	vAssert(b.Current() == 10 && b.Completed(), "S11.final-state")
 }
+
+// ---- S12: a bar leaves a synchronised column and a new bar is added before the next frame (C01, C12)
+func vsS12() {
+	mode := vModeParam()
+	e := vNewContainer(mode, -1)
+	cSync := vParam("newBarSync") != 0
+	dA, dB, dC := vNewSync(vMakeText(5, 0)), vNewSync(vMakeText(2, 0)), vNewSync(vMakeText(3, 0))
+	mA, mB, mC := vNewMark(2), vNewMark(3), vNewMark(4)
+	a, _ := e.p.Add(1, mA, BarFillerTrim(), PrependDecorators(dA), BarRemoveOnComplete())
+	b, _ := e.p.Add(2, mB, BarFillerTrim(), PrependDecorators(dB))
+	if mode == vManual {
+		e.refresh <- nil
+	}
+	a.IncrBy(1)
+	if mode == vManual {
+		e.refresh <- nil
+		e.refresh <- nil
+	} else {
+		a.Wait()
+	}
+	optsC := []BarOption{BarFillerTrim()}
+	if cSync {
+		optsC = append(optsC, PrependDecorators(dC))
+	}
+	c, _ := e.p.Add(2, mC, optsC...)
+	if mode == vManual {
+		e.refresh <- nil
+		e.refresh <- nil
+	}
+	b.IncrBy(2)
+	c.IncrBy(2)
+	if mode == vManual {
+		e.refresh <- nil
+		e.refresh <- nil
+	}
+	e.vFinish("S12", a, b, c)
+	if mode != vPlain {
+		// after the wide bar A has left, the column shrinks to the widest remaining member
+		want := 2
+		if cSync {
+			want = 3
+		}
+		vAssert(dB.last == want, "S12.column-width-follows-membership")
+		if cSync {
+			vAssert(dC.last == want, "S12.new-member-gets-the-common-width")
+		}
+	}
+}
